@@ -12,7 +12,7 @@ def summarize(case) -> Dict[str, Any]:
     return {
         "seed": case["seed"],
         "markets": {m: {k: v for k, v in cfg[m].items() if k in ("class", "tickSize", "marketPrice", "markets", "outstandingShares")} for m in sim["markets"]},
-        "agents": {a: {"class": cfg[a]["class"], "n": cfg[a].get("numAgents"), "markets": cfg[a]["markets"],
+        "agents": {a: {"class": cfg[a].get("class", cfg[a].get("extends")), "n": cfg[a].get("numAgents"), "markets": cfg[a].get("markets"),
                        "first_program": (cfg[a].get("scripts") or [None])[0]} for a in sim["agents"]},
         "sessions": [{k: v for k, v in s.items() if k != "withPrint"} for s in sim["sessions"]],
         "events": {e: cfg[e] for s in sim["sessions"] for e in s.get("events", [])},
